@@ -110,7 +110,7 @@ def strace_ok():
 
 
 def run_c10(ctx):
-    tier, rng = ctx.tier, ctx.rng
+    tier, rng = ctx.tier, ctx.sub_rng("fam_files.1")
     binp = ctx.go_test_build("./cmd/thermal-recorder", "tr.test")
 
     def t(name, env, timeout=120):
